@@ -832,3 +832,58 @@ SMT.append(Q("c09_candidate_loops", "every candidate of a truncated lookup is ex
              functions=["mdb_shard::shard_format::MDBShardInfo::get_file_reconstruction_info", "mdb_shard::shard_format::MDBShardInfo::chunk_hash_dedup_query"],
              bounds="all CFG paths", solvers=("z3", "cvc5-bv"),
              replay=native_test("c09_prefix_collision_lookup", "C09 violated", "native replay passes: every member of a 64-bit-prefix group is found in tables below and above the window size")))
+
+
+def build_integrity_order(fns):
+    """verify_shard_integrity compares the chunk-index listing read from the lookup table with the one obtained by scanning the
+    xorb section after sorting both: the comparison is only meaningful if the sort order is total on the compared elements
+    (hash, (entry index, chunk index)) - otherwise two listings with the same elements but a different order among entries that
+    share a truncated hash (one chunk stored in two xorbs) compare unequal and a valid shard is rejected (panic in debug builds)."""
+    f = mir.find_fn(fns, r"shard_file_handle::<impl at [^>]*>::verify_shard_integrity$")
+    sc = smt.Script("c09_integrity_check_order")
+    sorts = []
+    for bb in f.order:
+        if f.blocks[bb][2]:
+            continue
+        t = mir.parse_term(f.blocks[bb][1])
+        if t["kind"] == "call" and re.search(r"slice::<impl \[\(u64, \(u32, u32\)\)\]>::sort", t["func"]):
+            sorts.append((bb, t["func"]))
+    if len(sorts) < 2:
+        raise LookupError("verify_shard_integrity: the two listings are no longer sorted before the comparison (%d sorts)" % len(sorts))
+    for k, (bb, func) in enumerate(sorts):
+        m = re.search(r"sort(?:_unstable)?_by_key::<[^,]+, \{closure@([^}]*)\}>", func)
+        if not m:
+            if re.search(r"\]>::sort(_unstable)?$", func):
+                sc.query("integrity check: listing %d is sorted by the whole element (total order)" % k, ["false"])
+            else:
+                sc.query("integrity check: listing %d is sorted by a recognised total order" % k, ["true"])
+            continue
+        loc = m.group(1)
+        cl = [g for n, g in fns.items() if n.startswith(f.name + "::{closure#") and g.args and loc in g.args[0][1]]
+        if len(cl) != 1:
+            raise LookupError("key closure of sort %d not found" % k)
+        g = cl[0]
+        keys = []
+        for pfx in ("ka%d." % k, "kb%d." % k):
+            s = symex.Sym(g, prefix=pfx, models=symex.STD_MODELS, max_visits=1)
+            ps = [p for p in s.run("bb0", max_paths=20) if p.end == "return"]
+            if len(ps) != 1 or ps[0].store.get("_0") is None or ps[0].store["_0"].kind != "bv":
+                raise LookupError("key closure of sort %d: not a straight-line integer key" % k)
+            p = ps[0]
+            elem = [s.load(p, ("field", ("deref", ("local", "_2")), 0, "u64"), "u64").t,
+                    s.load(p, ("field", ("field", ("deref", ("local", "_2")), 1, "(u32, u32)"), 0, "u32"), "u32").t,
+                    s.load(p, ("field", ("field", ("deref", ("local", "_2")), 1, "(u32, u32)"), 1, "u32"), "u32").t]
+            keys.append((p.store["_0"].t, elem, p.pc))
+            sc.declare(s.decls)
+        (ka, ea, pa), (kb, eb, pb) = keys
+        differ = "(or %s)" % " ".join(mk_not(mk_eq(x, y)) for x, y in zip(ea, eb))
+        sc.query("integrity check: the sort key of listing %d distinguishes any two different (hash, location) entries (total order on the compared elements)" % k,
+                 pa + pb + [mk_eq(ka, kb), differ])
+    sc.query("witness: sorts found", ["true"], expect="sat", kind="witness")
+    return [sc]
+
+
+SMT.append(Q("c09_integrity_check_order", "the shard integrity check compares its two chunk listings under a total order", "mdb_shard", build_integrity_order,
+             functions=["mdb_shard::shard_file_handle::MDBShardFile::verify_shard_integrity (sort keys)"], bounds="all 128-bit pairs of listing entries",
+             solvers=("z3", "cvc5-bv"),
+             replay=native_test("c09_integrity_duplicate_chunk", "C09 violated", "native replay passes: a shard holding one chunk in two xorbs passes its integrity check")))
